@@ -432,6 +432,9 @@ func probeInputs() []Input {
 		mk("custom-data-size-2^28", c.Cat(header, []byte{0}, u(1<<28), c.Name("x"), []byte{1})),
 		mk("custom-empty-payload-at-end", c.Cat(header, typeSec, c.Sec(0, c.Name("a")))),
 		mk("custom-empty-payload-then-section", c.Cat(header, c.Sec(0, c.Name("a")), typeSec)),
+		// function 0 calls function 1, whose type index is out of range
+		mk("call-to-function-with-invalid-type-index", c.Cat(header, typeSec, c.Sec(3, c.Vec(u(0), u(5))),
+			c.Sec(10, c.Vec(c.Code(nil, c.Call(1)), c.Code(nil))))),
 		// guarded since 14ba147: must now be cheap
 		mk("type-count-2^24-guarded", c.Cat(header, c.Sec(1, u(1<<24)))),
 		mk("element-init-count-2^24-guarded", c.Cat(header, c.Sec(9, c.Cat(u(1), u(0), c.I32Const(0), []byte{0x0b}, u(1<<24))))),
